@@ -185,16 +185,19 @@ impl TryFrom<Pair<'_, Rule>> for Variable {
 
     fn try_from(pair: Pair<Rule>) -> Result<Self, Error> {
         fn parse_int(pair: Pair<Rule>) -> Result<i64, Error> {
+            parse_signed_int(pair, "")
+        }
+        fn parse_signed_int(pair: Pair<Rule>, sign: &str) -> Result<i64, Error> {
             let pair = pair.into_inner().next().unwrap();
             match pair.as_rule() {
-                Rule::binary_int => parse_int_with_radix(pair, 2),
-                Rule::octal_int => parse_int_with_radix(pair, 8),
-                Rule::decimal_int => parse_int_with_radix(pair, 10),
-                Rule::hexadecimal_int => parse_int_with_radix(pair, 16),
+                Rule::binary_int => parse_int_with_radix(pair, 2, sign),
+                Rule::octal_int => parse_int_with_radix(pair, 8, sign),
+                Rule::decimal_int => parse_int_with_radix(pair, 10, sign),
+                Rule::hexadecimal_int => parse_int_with_radix(pair, 16, sign),
                 rule => unexpected!(rule),
             }
         }
-        fn parse_int_with_radix(pair: Pair<Rule>, radix: u32) -> Result<i64, Error> {
+        fn parse_int_with_radix(pair: Pair<Rule>, radix: u32, sign: &str) -> Result<i64, Error> {
             let str = pair.as_str();
             let inner = pair
                 .into_inner()
@@ -202,13 +205,14 @@ impl TryFrom<Pair<'_, Rule>> for Variable {
                 .unwrap()
                 .as_str()
                 .replace([' ', '_'], "");
-            i64::from_str_radix(&inner, radix).map_err(|_| Error::IntegerOverflow(str.into()))
+            i64::from_str_radix(&format!("{sign}{inner}"), radix)
+                .map_err(|_| Error::IntegerOverflow(format!("{sign}{str}").into()))
         }
         match pair.as_rule() {
             Rule::r#true => Ok(Variable::Bool(true)),
             Rule::r#false => Ok(Variable::Bool(false)),
             Rule::minus_int => {
-                parse_int(pair.into_inner().next().unwrap()).map(|value| Variable::Int(-value))
+                parse_signed_int(pair.into_inner().next().unwrap(), "-").map(Variable::Int)
             }
             Rule::int => parse_int(pair).map(Self::from),
             Rule::minus_float => {
